@@ -8,10 +8,13 @@ import (
 	"math/rand"
 	"sort"
 	"strconv"
+	"strings"
 	"time"
 
 	sdk "github.com/cosmos/cosmos-sdk/types"
 
+	"github.com/bandprotocol/chain/v3/pkg/obi"
+	"github.com/bandprotocol/chain/v3/testing/testdata"
 	oracletypes "github.com/bandprotocol/chain/v3/x/oracle/types"
 
 	tf "vdrive/tracefmt"
@@ -62,6 +65,7 @@ type session struct {
 	committee map[uint64][]string // remembered committees (for role binding after deletion)
 	sent      map[uint64]sentReq  // what the driver put into each accepted request
 	rawReqs   map[uint64][]oracletypes.RawRequest
+	expected  map[uint64][]byte // W4 requests: the result the script must produce from the reports present at resolution
 	interesting bool
 }
 
@@ -124,7 +128,7 @@ func (s *session) project() tf.M {
 			reqs = append(reqs, tf.M{
 				"present": true, "vals": vals, "min": int(rq.MinCount), "rh": int(rq.RequestHeight),
 				"rt": int(rq.RequestTime - s.w.Cfg.GenesisTime.Unix()),
-				"ok": rq.OracleScriptID == world.ScriptOK3 || rq.OracleScriptID == world.ScriptOK1 || rq.OracleScriptID == world.ScriptOKNil,
+				"ok": rq.OracleScriptID == world.ScriptOK3 || rq.OracleScriptID == world.ScriptOK1 || rq.OracleScriptID == world.ScriptOKNil || rq.OracleScriptID == world.ScriptW4,
 			})
 		} else {
 			reqs = append(reqs, tf.M{"present": false})
@@ -139,6 +143,10 @@ func (s *session) project() tf.M {
 			rr := k.MustGetResult(ctx, rid)
 			sent := s.sent[id]
 			mirror := rr.ClientID == sent.clientID && string(rr.Calldata) == sent.calldata && uint64(rr.RequestID) == id
+			if exp, ok := s.expected[id]; ok && rr.ResolveStatus == oracletypes.RESOLVE_STATUS_SUCCESS {
+				// the script that echoes every report: its output must be built from exactly the reports present at resolution
+				mirror = mirror && string(rr.Result) == string(exp)
+			}
 			ress = append(ress, tf.M{
 				"status": statusName(rr.ResolveStatus), "ans": int(rr.AnsCount), "ask": int(rr.AskCount),
 				"min": int(rr.MinCount), "rt": int(rr.RequestTime - s.w.Cfg.GenesisTime.Unix()),
@@ -236,7 +244,7 @@ func (d *Driver) RunScript(sc tf.Script) {
 	nval := tf.Int(sc.C, "nval", 3)
 	w := d.world(nval)
 	s := &session{d: d, w: w, r: w.Branch(), resolveEv: map[uint64]int{}, committee: map[uint64][]string{},
-		sent: map[uint64]sentReq{}, rawReqs: map[uint64][]oracletypes.RawRequest{}}
+		sent: map[uint64]sentReq{}, rawReqs: map[uint64][]oracletypes.RawRequest{}, expected: map[uint64][]byte{}}
 	st := world.NewAccount("stranger1")
 	st.Name = "x1"
 	s.strangers = []world.Account{st}
@@ -290,10 +298,22 @@ func (s *session) apply(step tf.M) {
 			osid = world.ScriptFail1
 		} else if (k.GetRequestCount(s.r.Ctx)+uint64(ask)+uint64(min))%3 == 0 {
 			osid = world.ScriptOKNil
+		} else if (k.GetRequestCount(s.r.Ctx)+uint64(ask)+uint64(min))%3 == 1 {
+			osid = world.ScriptW4 // reads its calldata again at execution and echoes every report it can see
 		}
 		before := k.GetRequestCount(s.r.Ctx)
 		clientID := fmt.Sprintf("cl-%d", before+1)
 		calldata := fmt.Sprintf("cd-%d", before+1)
+		if osid == world.ScriptW4 {
+			// calldata of a length chosen against the CURRENT size parameters: short, or longer than
+			// max_report_data_size when max_calldata_size allows it
+			pp := k.GetParams(s.r.Ctx)
+			n := 3 + int(before)%5
+			if int(pp.MaxCalldataSize) > int(pp.MaxReportDataSize)+40 && (before+uint64(ask))%2 == 0 {
+				n = int(pp.MaxReportDataSize) + 8
+			}
+			calldata = string(obi.MustEncode(testdata.Wasm4Input{IDs: []int64{1, 2, 1}, Calldata: strings.Repeat("c", n)}))
+		}
 		msg := oracletypes.NewMsgRequestData(osid, []byte(calldata), uint64(ask), uint64(min), clientID,
 			sdk.NewCoins(sdk.NewInt64Coin("uband", 1_000_000)), 40000, 300000, s.w.Accts[0].Addr, 0)
 		o := s.r.Deliver(msg)
@@ -320,7 +340,7 @@ func (s *session) apply(step tf.M) {
 		}
 		var reps []oracletypes.RawReport
 		for _, rq := range raws {
-			reps = append(reps, oracletypes.NewRawReport(rq.ExternalID, 0, []byte("ans")))
+			reps = append(reps, oracletypes.NewRawReport(rq.ExternalID, 0, []byte(fmt.Sprintf("%s.%d;", who, rq.ExternalID))))
 		}
 		switch shape {
 		case "missing":
@@ -344,8 +364,37 @@ func (s *session) apply(step tf.M) {
 			s.interesting = true
 		}
 		s.d.W.Step("Activate", tf.M{"a": who}, outc(o), s.project())
+	case "SetSizes":
+		// environment: governance changes the size limits in the middle of a history
+		pp := k.GetParams(s.r.Ctx)
+		pp.MaxCalldataSize, pp.MaxReportDataSize = uint64(tf.Int(step, "cd", 256)), uint64(tf.Int(step, "rd", 512))
+		_ = k.SetParams(s.r.Ctx, pp)
+		s.d.W.Step("Env", tf.M{"what": "SetSizes"}, tf.M{"ok": true}, s.project())
 	case "EndBlock":
 		dt := tf.Int(step, "dt", 1)
+		// what the echo script must output for every request that is about to be resolved: for each raw request (in
+		// order) and each chosen validator (in committee order) the data that validator reported, nothing if it did not
+		for _, pid := range k.GetPendingResolveList(s.r.Ctx) {
+			rq, err := k.GetRequest(s.r.Ctx, pid)
+			if err != nil || rq.OracleScriptID != world.ScriptW4 {
+				continue
+			}
+			byVal := map[string]map[oracletypes.ExternalID]string{}
+			for _, rp := range k.GetReports(s.r.Ctx, pid) {
+				m := map[oracletypes.ExternalID]string{}
+				for _, rr := range rp.RawReports {
+					m[rr.ExternalID] = string(rr.Data)
+				}
+				byVal[rp.Validator] = m
+			}
+			ret := ""
+			for _, raw := range rq.RawRequests {
+				for _, v := range rq.RequestedValidators {
+					ret += byVal[v][raw.ExternalID]
+				}
+			}
+			s.expected[uint64(pid)] = obi.MustEncode(testdata.Wasm4Output{Ret: ret})
+		}
 		o := s.r.EndBlock()
 		s.noteResolveEvents(o)
 		if s.d.Mode == "c15" {
@@ -406,6 +455,10 @@ func RandomScript(rng *rand.Rand) tf.Script {
 			steps = append(steps, tf.M{"e": "Report", "id": id, "shape": shape,
 				"who": tf.M{"role": role, "k": 1 + rng.Intn(nval), "id": id}})
 		case x < 72:
+			if rng.Intn(4) == 0 {
+				steps = append(steps, tf.M{"e": "SetSizes", "cd": []int{256, 700, 1024}[rng.Intn(3)], "rd": []int{512, 300, 512}[rng.Intn(3)]})
+				break
+			}
 			role := "val"
 			if rng.Intn(6) == 0 {
 				role = "stranger"
